@@ -1,7 +1,7 @@
 """Contracts on pyasn1/codec/ber/encoder.py (framing: identifier octets, length octets, EOO)."""
 from pyvc.core import (Contract, Loop, PInt, PBool, PTup, PObj, PConst, POpt, POneOf, POptions, PBytes, PIntTuple,
                        PRecSeq, PSeqKindBy, PDerived, CallContract, module_int_consts, Obj, FnV, SeqV, Tup, ExcV, _Raise,
-                       mk_seq, Length, inr, class_consts, lit_seq)
+                       mk_seq, Length, inr, class_consts, lit_seq, toint, Unsupported)
 
 F = 'pyasn1/codec/ber/encoder.py'
 TAG = module_int_consts('pyasn1/type/tag.py')   # tagClassUniversal ... tagFormatConstructed, read from the AST
@@ -435,3 +435,89 @@ SEQOF_COMPONENTS = Contract(
     external=['every-element-in-order'],
     note='three elements; SET OF sorts these chunks afterwards (cer.encoder.SetOfEncoder, stand-in der-twin/cer-twin)')
 CONTRACTS = CONTRACTS + [SEQOF_COMPONENTS]
+
+
+# ---- BIT STRING content: unused-bits octet + packed bits, or segments of 8 * maxChunkSize bits -----------------------------
+def _bits_obj(z, name, tagSet=None):
+    import z3 as _z
+    from spec.smt import zeros, pack8, py_slice
+
+    def asoctets(ex, self):
+        out = pack8(z)
+        # assumed model of univ.BitString.asOctets (integer.to_bytes is under contract; SizedInteger is not): one octet
+        # per eight bits, rounded up
+        ex.assume(_z.Length(out) == (_z.Length(z) + 7) / 8)
+        ex.assume(inr(out))
+        return SeqV(out, 'bytes')
+
+    def lshift(ex, self, k):
+        k = toint(k)
+        ex.assume(_z.Length(zeros(k)) == _z.If(k > 0, k, 0))
+        return _bits_obj(_z.Concat(z, zeros(k)), name + '<<k', self.fields['tagSet'])
+
+    def clone(ex, self, *args, **kw):
+        if args:
+            raise Unsupported('BitString.clone with a new value')
+        return _bits_obj(z, name + '.clone()', kw.get('tagSet', self.fields['tagSet']))
+
+    def getslice(ex, self, lo, hi):
+        lo = _z.IntVal(0) if lo is None else toint(lo)
+        hi = _z.Length(z) if hi is None else toint(hi)
+        return _bits_obj(py_slice(z, lo, hi), name + '[a:b]', self.fields['tagSet'])
+    return Obj('BitString', {'tagSet': tagSet, 'bits': SeqV(z, 'any')},
+               {'asOctets': asoctets, '__lshift__': lshift, 'clone': clone, '__getslice__': getslice,
+                '__len__': lambda ex, self: _z.Length(z)}, name=name)
+
+
+def _bit_value(ex, env):
+    import z3 as _z
+    base = Obj('Tag', {'__truthy__': _z.Bool('hasBaseTag')}, name='baseTag')
+    return _bits_obj(env['bits'].z, 'value', Obj('TagSet', {'baseTag': base}, name='tagSet'))
+
+
+def _encode_bit_chunk(ex, chunk, asn1Spec=None, **options):
+    from spec.smt import enc_chunk
+    z = enc_chunk(chunk.fields['bits'].z)
+    ex.assume(inr(z))
+    return SeqV(z, 'bytes')
+
+
+_MCS = 'options.get("maxChunkSize", 0)'
+BITS_ENC = Contract(
+    id='ber.encoder::BitStringEncoder.encodeValue[value-object]', file=F, qual='BitStringEncoder.encodeValue',
+    properties=['C01', 'C03', 'C02'],
+    params=dict(self=PObj('BitStringEncoder'), bits=PIntTuple(), value=PDerived(_bit_value), asn1Spec=PConst(None),
+                encodeFun=PConst(FnV(_encode_bit_chunk, 'encodeFun')), options=POptions(maxChunkSize=PInt(), defMode=PBool())),
+    globals={'tag': {'TagSet': FnV(_tagset_ctor, 'tag.TagSet')}, 'hasBaseTag': __import__('z3').Bool('hasBaseTag')},
+    requires=['%s >= 0' % _MCS],
+    ensures=[
+        # X.690 8.6.2: initial octet = number of unused bits (0..7) of the final octet, then the bits, padded with zeros
+        ('primitive-when-it-fits',
+         '(%s == 0 or len(bits) <= 8 * %s) ==> (result[1] is False and result[2] is True and '
+         'result[0][0] == (8 - len(bits) %% 8) %% 8 and len(result[0]) == 1 + (len(bits) + 7) // 8)' % (_MCS, _MCS)),
+        ('primitive-content-padded-with-zeros',
+         '((%s == 0 or len(bits) <= 8 * %s) and len(bits) %% 8 != 0) ==> '
+         'result[0][1:] == X.pack8(bits + X.zeros(8 - len(bits) %% 8))' % (_MCS, _MCS)),
+        ('primitive-content-aligned',
+         '((%s == 0 or len(bits) <= 8 * %s) and len(bits) %% 8 == 0) ==> result[0][1:] == X.pack8(bits)' % (_MCS, _MCS)),
+        # X.690 8.6.4: otherwise constructed from the encodings of consecutive segments of 8 * maxChunkSize bits, only the last
+        # one shorter (and the only one that may have unused bits)
+        ('segments-in-order',
+         '(%s > 0 and len(bits) > 8 * %s) ==> (result[1] is True and result[2] is True and '
+         'result[0] == X.bit_segments_from(bits, 0, 8 * %s))' % (_MCS, _MCS, _MCS)),
+    ],
+    loops={0: Loop(invariant=['stop >= 0', 'stop <= valueLength', 'maxChunkSize > 0', 'valueLength == len(bits)',
+                              'isinstance(substrate, bytes)', 'X.inr(substrate)',
+                              'X.sub(alignedValue.bits, 0, valueLength) == bits', 'len(alignedValue.bits) >= valueLength',
+                              'substrate + X.bit_segments_from(bits, stop, 8 * maxChunkSize) == '
+                              'X.bit_segments_from(bits, 0, 8 * maxChunkSize)'],
+                   variant='valueLength - stop',
+                   iter_ensures=['hasBaseTag ==> last_args("encodeFun")[0].tagSet.base is value.tagSet.baseTag',
+                                 'last_args("encodeFun")[1] is None',
+                                 'len(last_args("encodeFun")[0]) >= 1 and len(last_args("encodeFun")[0]) <= 8 * maxChunkSize'],
+                   hints=['X.lemma_bit_segments_step(bits, iter_old(stop), 8 * maxChunkSize)',
+                          'X.lemma_prefix_slice(alignedValue.bits, bits, iter_old(stop), stop)'])},
+    calls={'encodeFun': _encode_bit_chunk},
+    external=['primitive-when-it-fits', 'primitive-content-padded-with-zeros', 'primitive-content-aligned', 'segments-in-order'],
+    note='asOctets of the value object is an assumed model (eight bits to the octet, rounded up)')
+CONTRACTS = CONTRACTS + [BITS_ENC]
